@@ -143,11 +143,45 @@ fn run_writer3(keep: u64, write: u64, n: usize, msg: usize, old: usize, stale: b
     let _ = std::fs::remove_dir_all(&dir);
     None
 }
+/// the oldest file disappears behind the writer's back (an operator, a tmp cleaner): whatever the writer does about the
+/// failing delete -- stop, or carry on -- the files on disk stay within the keep-size (+ one event)
+fn run_extdel(keep: u64, msg: usize) -> Option<String> {
+    use servlin::log::internal::LogEvent;
+    use servlin::log::{tag, LogFileWriter};
+    let dir = scratch();
+    let desc = format!("extdel keep={keep} msg={msg}");
+    let fail = |m: String| { let _ = std::fs::remove_dir_all(&dir); Some(format!("{desc} {m}")) };
+    let sender = match LogFileWriter::new_builder(dir.join("log"), keep).with_max_write_bytes(65536).start_writer_thread() { Ok(s) => s, Err(e) => return fail(format!("expected=writer-starts actual={e:?}")) };
+    let mut max_line = 0u64;
+    let mut send_n = |from: usize, to: usize| { for i in from..to {
+        let ev = LogEvent::new(servlin::log::Level::Info, tag("msg", format!("{i:08}{}", "x".repeat(msg))));
+        let mut b = Vec::new(); ev.write_jsonl(&mut b).unwrap(); max_line = max_line.max(b.len() as u64);
+        if sender.send(ev).is_err() { break; }
+    } };
+    send_n(0, 300);
+    std::thread::sleep(Duration::from_millis(300));
+    let mut names: Vec<PathBuf> = std::fs::read_dir(&dir).unwrap().map(|e| e.unwrap().path()).filter(|p| p.file_name().unwrap().to_string_lossy().starts_with("log")).collect();
+    names.sort_by_key(|p| std::fs::metadata(p).and_then(|m| m.modified()).ok());
+    if names.len() < 2 { return fail(format!("expected=several files before the deletion actual={}", names.len())); }
+    let _ = std::fs::remove_file(&names[0]);
+    std::thread::sleep(Duration::from_millis(1100));   // (a new file must not reuse the removed one's name)
+    send_n(300, 1200);
+    std::thread::sleep(Duration::from_millis(400));
+    let total: u64 = std::fs::read_dir(&dir).unwrap().map(|e| e.unwrap()).filter(|e| e.file_name().to_string_lossy().starts_with("log")).map(|e| e.metadata().map(|m| m.len()).unwrap_or(0)).sum();
+    drop(sender);
+    if total > keep + max_line { return fail(format!("expected=total<={keep}+{max_line} actual=total {total}")); }
+    let _ = std::fs::remove_dir_all(&dir);
+    None
+}
 fn main() {
     std::panic::set_hook(Box::new(|_| {}));
     let args: Vec<String> = std::env::args().collect();
     if args.len() >= 3 && args[1] == "replay" {
         let w = args[2..].join(" ");
+        if w.starts_with("extdel ") {
+            let g = |k: &str| -> u64 { w.split(&format!("{k}=")).nth(1).unwrap().split(' ').next().unwrap().parse().unwrap() };
+            match run_extdel(g("keep"), g("msg") as usize) { Some(m) => { println!("WITNESS {m}"); std::process::exit(1) } None => { println!("OK witness no longer fails"); std::process::exit(0) } }
+        }
         if w.starts_with("writer ") {
             let g = |k: &str| -> u64 { w.split(&format!("{k}=")).nth(1).unwrap().split(' ').next().unwrap().parse().unwrap() };
             let old = if w.contains(" old=") { g("old") as usize } else { 0 };
@@ -189,6 +223,7 @@ fn main() {
         n += 1;
         if let Some(m) = run_writer2(keep, write, cnt, msg, old) { if found.len() < 5 { found.push(m) } }
     }
+    n += 1; if let Some(m) = run_extdel(140000, 1000) { if found.len() < 5 { found.push(m) } }
     println!("EVALUATED {n}");
     for f in &found { println!("WITNESS {f}"); }
     std::process::exit(if found.is_empty() { 0 } else { 1 });
